@@ -1,10 +1,11 @@
 """C12 — configuration of tools/check.py and text of the MANIFEST entry."""
 
 PROP = {
-    "targets": ["Props/C12.vo", "Corr/CorrC12.vo"],
-    "cone": ["Lex/LexProofs.v"],
+    "targets": ["Props/C12.vo", "Corr/CorrC12.vo", "Bridge/BrC0809.vo"],
+    "cone": ["Lex/LexProofs.v", "Bridge/BrC0809.v"],
     "harness": "c12",
-    "trusted": ["hand model of parser/lexer/{lexer,state,utils}.go and of the Number case of parser.go parsePrimaryExpression in coq/Lex/Lexer.v (rune-level; executed against lexer.Lex / parser.Parse on every run)",
+    "trusted": ["purity premise of the functional model (no state survives a Compile / Run call): Bridge/BrC0809.v over the regenerated write / call / package-variable inventory - a cache or other package-level state breaks it",
+                "hand model of parser/lexer/{lexer,state,utils}.go and of the Number case of parser.go parsePrimaryExpression in coq/Lex/Lexer.v (rune-level; executed against lexer.Lex / parser.Parse on every run)",
                 "unicode.IsLetter/IsDigit/IsSpace on code points >= 128 and strconv.ParseFloat are oracle arguments of the model (theorems hold for every oracle; case files carry the values computed by the Go library)"],
     "assumptions": ["the lexer input is valid UTF-8 (file.NewSource converts through []rune, so it always is)", "int is 64-bit (amd64)",
                     "strconv.ParseFloat is correctly rounded (not modelled: the theorem is that it receives exactly the literal's characters without `_`)",
